@@ -6,11 +6,14 @@ import PyAirtouch.Model.Codecs
 import PyAirtouch.Model.CodecsWF
 import PyAirtouch.Model.Discovery
 import PyAirtouch.Model.RegistryCmd
+import PyAirtouch.Model.ApiCmd5   -- [API5]
 /-! Line-protocol driver over the *model* (Gen + Model). One request per line, one answer per line. -/
 open PyAirtouch PyAirtouch.Util PyAirtouch.Model
 
 structure DState where
   vs : Model.SockValidate.VS := Model.SockValidate.VS.start
+  apiGen : Nat := 0                                          -- [API] generation chosen by `api-new`
+  api5 : Model.Api5.State := Model.ApiCmd5.fresh             -- [API5]
 
 def answerPure (ws : List String) : String :=
   match ws with
@@ -101,6 +104,12 @@ def answer (st : DState) (ws : List String) : DState × String :=
   | "vt-begin" :: _ | "vl" :: _ | "vs" :: _ | "vt-end" :: _ =>
     let (v, out) := Model.SockValidate.vLine st.vs ws
     ({ st with vs := v }, out)
+  | ["api-new", "5"] => ({ st with apiGen := 5, api5 := Model.ApiCmd5.fresh }, "ok")     -- [API5]
+  | "api" :: rest =>                                                                      -- [API]
+    if st.apiGen = 5 then                                                                 -- [API5]
+      let (s5, out) := Model.ApiCmd5.apiLine st.api5 rest
+      ({ st with api5 := s5 }, out)
+    else (st, "bad-op")
   | _ => (st, answerPure ws)
 
 partial def loop (hin hout : IO.FS.Stream) (st : DState) : IO Unit := do
